@@ -146,6 +146,20 @@ def check_reaction(tw, rsmi, fails, rng, tags):
             bad("smart_to_gml", "full rule from the reaction string differs from the rule from the full ITS", "gml-equivalence")
     except Exception as ex:
         bad("smart_to_gml", "raised %r" % (ex,), "gml-equivalence")
+    # the same equivalence with the non-default flags of the string route (sanitize off, explicit hydrogens on)
+    for kw in ({"sanitize": False}, {"explicit_hydrogen": True}, {"reindex": True}):
+        try:
+            kw_its = {k: v for k, v in kw.items() if k == "sanitize"}
+            its2 = rsmi_to_its(rsmi, **kw_its)
+            want2 = chem.its_signature(get_rc(its2))
+            if any(d["lab"][0] != d["lab"][2] or "*" in (d["lab"][0], d["lab"][2]) for _, d in chem.its_signature(its2).nodes(data=True)):
+                continue
+            got2 = chem.its_signature(gml_to_its(smart_to_gml(rsmi, core=True, **kw)))
+            ref2 = chem.its_signature(gml_to_its(its_to_gml(its2, core=True, **{k: v for k, v in kw.items() if k in ("explicit_hydrogen", "reindex")})))
+            if not chem.iso_lab(got2, ref2):
+                bad("smart_to_gml", "with %s the rule from the reaction string differs from the rule from the ITS built with the same flags" % (kw,), "gml-equivalence-flags")
+        except Exception as ex:
+            bad("smart_to_gml", "raised %r with %s" % (ex, kw), "gml-equivalence-flags")
     # renumbering the maps gives an equivalent rule
     try:
         r2 = chem.renumber_rsmi(rsmi, rng)
@@ -168,6 +182,7 @@ def run(tw, tier, seed, only=None):
             fails.append({"function": "C10 twin", "violations": ["raised %r" % (ex,)], "smiles": s, "tags": {}})
         cases += 1
     rxns = chem.corpus_reactions(limit=45 if tier == "quick" else None, rng=rng)
+    rxns = ["[CH:1]1=[CH:2][CH:3]=[CH:4][CH:5]=[C:6]1[Br:7].[OH2:8]>>[CH:1]1=[CH:2][CH:3]=[CH:4][CH:5]=[C:6]1[OH:8].[BrH:7]"] + rxns     # Kekule-written ring
     for r in rxns:
         try:
             nontriv += check_reaction(tw, r, fails, rng, {"family": "reaction"})
